@@ -150,7 +150,9 @@ def c07_streams(tier, rng, ctx):
         for mode in "wa":
             wl["m"].append("\t".join(["hwrite", "m", mode, b"old".hex(), "1", sq]))
             wl["s"].append("\t".join(["hwrite", "s", mode, b"old".hex(), "0", sq]))
-    sts.append(Stream("whandle-memfs", "mirror", wl["m"], exhaustive=True,
+    # the model side is the statement itself (C07 theorems: the handle mirror's trace IS "written bytes" / "old ++ written" at
+    # every flush and at drop), so a disagreement is a failing input
+    sts.append(Stream("whandle-memfs", "spec", wl["m"], exhaustive=True,
                       rule="Memfs write/append handles: every sequence of <= %d write/flush tokens, dropped at the end of every prefix-closed sequence; content observed after each flush and after drop; plus handles whose file was removed" % wd))
     sts.append(Stream("whandle-stdfs", "spec", wl["s"], [l.replace("hwrite\ts", "hwrite\tm", 1) for l in wl["s"]],
                       rule="Stdfs write/append handles vs the same model"))
